@@ -38,10 +38,14 @@ func (m *c17Remote) fetch(p []byte, off int64) (int, error) {
 		m.lastFail = true
 		return 0, io.ErrUnexpectedEOF
 	}
-	if m.mayFail && verifChoice("fetch_fails", 2) == 1 {
-		m.fails++
-		m.lastFail = true
-		return 0, c17ErrRemote
+	if m.mayFail {
+		// a failing fetch may report any error, in particular the ones io.ReadFull produces when the
+		// HTTP body is empty (io.EOF) or ends early (io.ErrUnexpectedEOF)
+		if k := verifChoice("fetch_outcome", 4); k != 0 {
+			m.fails++
+			m.lastFail = true
+			return 0, []error{nil, c17ErrRemote, io.EOF, io.ErrUnexpectedEOF}[k]
+		}
 	}
 	o := verifConcInt(int(off))
 	copy(p, m.data[o:o+len(p)])
